@@ -14,6 +14,8 @@ covered only by running every generated case with std's unsafe-precondition chec
 -/
 import Daac.Proofs.NoFault
 import Daac.Proofs.Utf8
+import Daac.Proofs.Bounds2
+import Daac.Proofs.SerialRT
 namespace Daac.Props.C07
 open Daac
 variable {V : Type}
@@ -90,5 +92,32 @@ theorem decoder_constants :
 
 /-- Block length of the byte-wise automaton as the source has it now: 256 = 2^8 ≥ every byte. -/
 theorem block_len_constant : Gen.blockLen = 2 ^ 8 := by decide
+
+
+/-! ### Rung 2 — every automaton the model builder returns is memory-safe to search -/
+
+/-- For EVERY collection, kind, variant and `num_free_blocks`: a successful model build satisfies
+`boundsInv` (every index stored anywhere in the tables is in range, block structure intact). -/
+theorem build_bounds (variant : Variant) (cfg : Cfg) (P : List (LPat V)) (da : DA V)
+    (hb : buildDA variant cfg P = .ok da) (hk : keysOk P)
+    (hbytes : variant = .bytewise → ∀ p ∈ P, ∀ c ∈ p.key, c < 256) : da.boundsInv = true :=
+  boundsInv_of_build variant cfg P da hb hk hbytes
+
+/-- … hence no search on it can fault with an out-of-range table access, on any haystack. -/
+theorem build_no_oob (variant : Variant) (cfg : Cfg) (P : List (LPat V)) (da : DA V)
+    (hb : buildDA variant cfg P = .ok da) (hk : keysOk P)
+    (hbytes : variant = .bytewise → ∀ p ∈ P, ∀ c ∈ p.key, c < 256) (h : List Nat) (hh : HayOk da h) :
+    (∀ e, ovAll da h = .error e → NoOob e) ∧ (∀ e, findAll da h = .error e → NoOob e) ∧
+    (∀ e, noSufAll da h = .error e → NoOob e) ∧ (∀ e, lmAll da h = .error e → NoOob e) := by
+  have hB := boundsInv_of_build variant cfg P da hb hk hbytes
+  exact ⟨ovAll_no_oob da hB h hh, findAll_no_oob da hB h hh, noSufAll_no_oob da hB h hh,
+    lmAll_no_oob da hB h hh⟩
+
+/-- With Props/C09 (`roundtrip`): an automaton restored from the bytes a built automaton
+serialises to is *equal* to it, so it inherits `boundsInv` and the theorems above. -/
+theorem restored_bounds (S : Ser V) (D : V → Prop) (hS : S.LawfulOn D) (da : DA V) (hwf : da.WF S D)
+    (hB : da.boundsInv = true) (rest : List Nat) :
+    ∃ da', deserialize S da.variant (serialize S da ++ rest) = some (da', rest) ∧ da'.boundsInv = true :=
+  ⟨da, deserialize_serialize S D hS da hwf rest, hB⟩
 
 end Daac.Props.C07
